@@ -66,6 +66,41 @@ fn strategy(_tier: Tier) -> BoxedStrategy<Case> {
             d
         })
     });
+    // one document in six has no read bases at all: every mapped read becomes a reference skip of
+    // its span (CIGAR `kN`, SEQ `*`). `cram::fs::index` decodes records without a reference
+    // repository, which on the pinned tree panics for a multi-reference slice whose mapped reads
+    // carry bases (known finding); reads without bases are what lets the multi-reference branch of
+    // the indexer run to the end and its entries be compared
+    let doc = (doc, 0u8..6).prop_map(|(mut d, k)| {
+        if k == 0 {
+            for t in d.templates.iter_mut() {
+                let reads: Vec<&mut g::Read> = match t {
+                    g::Template::Single { read, .. } => vec![read],
+                    g::Template::Pair { r1, r2, extra, .. } => {
+                        let mut v = vec![r1, r2];
+                        if let Some((_, r)) = extra {
+                            v.push(r);
+                        }
+                        v
+                    }
+                };
+                for r in reads {
+                    if let g::Body::Mapped(a) = &mut r.body {
+                        let span: u32 = a.edits.iter().map(|e| match e {
+                            g::Edit::Eq(n) | g::Edit::Del(n) | g::Edit::Skip(n) => *n as u32,
+                            g::Edit::Sub(_) => 1,
+                            _ => 0,
+                        }).sum();
+                        a.edits = vec![g::Edit::Skip(span.clamp(1, 60_000) as u16)];
+                        a.lead_soft.clear();
+                        a.trail_soft.clear();
+                        r.qual = g::Qual::Missing;
+                    }
+                }
+            }
+        }
+        d
+    });
     (doc, prop::collection::vec(region_strategy(), 1..10)).prop_map(|(doc, regions)| Case { doc, regions }).boxed()
 }
 
